@@ -6,6 +6,13 @@
 //! the handle. After every operation the protocol event loop and all spawned `Connection` tasks are
 //! polled until nothing is runnable, so a case replays exactly.
 //!
+//! Scheduling control: `hold p` stops the adapter from polling the `Connection` tasks peer `p` has at
+//! that moment (they stay woken, like tasks a busy executor has not got round to yet), `unhold p`
+//! lets them run again. A held task is NOT suspended inside anything: it simply is not scheduled, so
+//! histories "disconnect; reconnect; new negotiation; the old task finally runs" can be produced
+//! without a stalled `Substream::close()`. The first time a `close()` really is suspended by
+//! `stall`, the observation of that operation carries `stalled(p)`.
+//!
 //! Timers: the protocol's negotiation timers are `futures_timer::Delay`s (real time, 5 s / 10 s),
 //! which never fire within a case. `timer p` makes one fire for peer `p` by pushing a ready future
 //! into `NotificationProtocol::timers` (the timer future carries nothing but the peer id); a
@@ -79,6 +86,10 @@ impl Wake for Flag {
 pub(crate) struct Task {
     fut: Pin<Box<dyn Future<Output = ()> + Send>>,
     flag: Arc<Flag>,
+    /// The peer whose stream the task serves (known for `Connection` tasks).
+    peer: Option<u64>,
+    /// Not scheduled for the time being (`hold`).
+    held: bool,
 }
 
 /// Executor that only collects the futures; the adapter polls them itself.
@@ -102,12 +113,14 @@ pub(crate) fn poll_tasks(exec: &Collect, tasks: &mut Vec<Task>) -> bool {
         tasks.push(Task {
             fut,
             flag: Flag::new(true),
+            peer: None,
+            held: false,
         });
     }
     let mut polled = false;
     let mut i = 0;
     while i < tasks.len() {
-        if tasks[i].flag.take() {
+        if !tasks[i].held && tasks[i].flag.take() {
             polled = true;
             let waker = Waker::from(Arc::clone(&tasks[i].flag));
             let mut cx = Context::from_waker(&waker);
@@ -248,13 +261,33 @@ impl Inner {
             // protocol event loop: one event per `next_event()`
             loop {
                 self.proto_flag.take();
+                let open_before = self.open_peers();
                 let waker = Waker::from(Arc::clone(&self.proto_flag));
                 let mut cx = Context::from_waker(&waker);
-                let fut = self.notif.next_event();
-                futures::pin_mut!(fut);
-                match fut.poll(&mut cx) {
-                    Poll::Ready(_) => continue,
-                    Poll::Pending => break,
+                let ready = {
+                    let fut = self.notif.next_event();
+                    futures::pin_mut!(fut);
+                    fut.poll(&mut cx).is_ready()
+                };
+                // a `Connection` task is spawned by the event that makes its peer `Open`
+                let spawned: Vec<_> = self.exec.spawned.lock().unwrap().drain(..).collect();
+                if !spawned.is_empty() {
+                    let new_open: Vec<u64> = self
+                        .open_peers()
+                        .into_iter()
+                        .filter(|p| !open_before.contains(p))
+                        .collect();
+                    for fut in spawned {
+                        self.tasks.push(Task {
+                            fut,
+                            flag: Flag::new(true),
+                            peer: if new_open.len() == 1 { Some(new_open[0]) } else { None },
+                            held: false,
+                        });
+                    }
+                }
+                if !ready {
+                    break;
                 }
             }
             let polled = poll_tasks(&self.exec, &mut self.tasks);
@@ -283,6 +316,15 @@ impl Inner {
             }
         }
         calls
+    }
+
+    fn open_peers(&self) -> Vec<u64> {
+        self.notif
+            .peers
+            .iter()
+            .filter(|(_, ctx)| std::matches!(ctx.state, PeerState::Open { .. }))
+            .filter_map(|(p, _)| peer_index(p))
+            .collect()
     }
 
     fn inject(&mut self, ev: InnerTransportEvent) {
@@ -422,6 +464,21 @@ fn with_calls(res: &str, calls: Vec<String>) -> String {
 
 impl VerifBox for NotifBox {
     fn step(&mut self, line: &str) -> String {
+        let mut res = self.step_inner(line);
+        // closes that were suspended by `stall` for the first time during this operation
+        if let Some(inner) = self.inner.as_ref() {
+            for (ctl, p, _) in &inner.pipes {
+                if ctl.take_close_stalled() {
+                    res.push_str(&format!(" stalled({p})"));
+                }
+            }
+        }
+        res
+    }
+}
+
+impl NotifBox {
+    fn step_inner(&mut self, line: &str) -> String {
         let _guard = self.rt.enter();
         let t: Vec<&str> = line.split_whitespace().collect();
         let num = |s: &str| s.parse::<usize>().ok();
@@ -620,6 +677,23 @@ impl VerifBox for NotifBox {
                 }
                 let calls = inner.settle();
                 with_calls(&res, calls)
+            }
+            ["hold", p] => {
+                let Some(p) = num(p) else { return "bad-op".into() };
+                let mut n = 0;
+                for t in inner.tasks.iter_mut().filter(|t| t.peer == Some(p as u64)) {
+                    t.held = true;
+                    n += 1;
+                }
+                format!("ok held={n}")
+            }
+            ["unhold", p] => {
+                let Some(p) = num(p) else { return "bad-op".into() };
+                for t in inner.tasks.iter_mut().filter(|t| t.peer == Some(p as u64)) {
+                    t.held = false;
+                }
+                let calls = inner.settle();
+                with_calls("ok", calls)
             }
             ["timer", p] => {
                 let Some(p) = num(p) else { return "bad-op".into() };
